@@ -84,6 +84,7 @@ class Interp:
         self.receivers = {}   # id(call) -> abstract value of the receiver of an inlined method call
         self.calcs = []       # (call, parameter entity, state) of every calc_file_signatures evaluation
         self.dumps = []       # (call, [file, matrix, row ids, column ids] values, state) of every dump_dmat_csv evaluation
+        self.deviations = []  # (node, text, state): a per-genome value taken from somewhere else than its own source
 
     # ------------------------------------------------------------------ helper inlining
     def inlinable(self, call, st=None):
@@ -277,6 +278,9 @@ class Interp:
                 names_, excl_ = get_arg(e, 1, 'names'), get_arg(e, 2, 'exclusive')
                 if isinstance(names_, (ast.List, ast.Tuple)) and all(isinstance(x, ast.Constant) and isinstance(x.value, str) for x in names_.elts) and isinstance(excl_, ast.AST) and is_const(excl_, True):
                     st.env[('group', id(e))] = Val('group', tuple(x.value for x in names_.elts))     # at most one of these options is given beyond this call
+            for a_ in list(e.args) + [k.value for k in e.keywords]:
+                if isinstance(a_, ast.Name) and st.env.get(a_.id, UNKNOWN).kind == 'iter':
+                    st.env[a_.id].prov['used'] = True                                  # consumed (partly) by this call
             if u(e.func) == 'next' and 1 <= len(e.args) <= 2 and not e.keywords:
                 it_ = self.ev(e.args[0], st)
                 if it_.kind == 'gen':
@@ -317,8 +321,24 @@ class Interp:
                 return fv if fv.kind == 'files' else OTHER                                # one file object per path, in order (C08-A1)
             if u(e.func) in ('list', 'tuple') and len(e.args) == 1 and not e.keywords:
                 fv = self.ev(e.args[0], st)
-                if fv.kind in ('ids', 'files'):
+                if fv.kind in ('ids', 'files', 'siglist'):
                     return fv
+            if u(e.func) == 'dict' and not e.keywords:
+                if not e.args:
+                    return Val('map', None)                                   # empty mapping
+                z = e.args[0]
+                if len(e.args) == 1 and isinstance(z, ast.Call) and (u(z.func) == 'zip' or self.resolve(z).endswith('zip_strict')) and len(z.args) == 2 and not z.keywords:
+                    kv_, vv_ = self.ev(z.args[0], st), self.ev(z.args[1], st)
+                    if kv_.kind in ('ids', 'files') and kv_.prov is not None:
+                        return Val('map', vv_, ('keys', kv_.kind, kv_.prov))  # label (or file) of one side -> value of vv_ at the same position
+            if u(e.func) == 'iter' and len(e.args) == 1 and not e.keywords:
+                return Val('iter', self.ev(e.args[0], st), {'used': False})       # the flag is shared by every alias of the iterator
+            if f == 'gambit.sigs.base.SignatureList' and e.args:
+                xv = self.ev(e.args[0], st)
+                ka_ = get_arg(e, 1, 'kmerspec')
+                kk = self.ev(ka_, st) if isinstance(ka_, ast.AST) else UNKNOWN
+                if xv.kind == 'siglist' or (xv.kind == 'seq' and not xv.ent and xv.prov is not None):
+                    return Val('sig', kk.ent if kk.kind == 'kspec' else xv.ent, xv.prov)     # the given signatures, in order, declared to have these parameters
             if u(e.func) in ('sorted', 'reversed', 'set', 'frozenset') and e.args:
                 fv = self.ev(e.args[0], st)
                 if fv.kind in ('ids', 'files'):
@@ -367,6 +387,10 @@ class Interp:
             # a comprehension over a literal sequence is the sequence of its instances (filters must be decided in this state)
             g = e.generators[0]
             src_ = self.ev(g.iter, st)
+            if not (src_.kind in ('seq', 'gen') and src_.prov is None):
+                r_ = self.comp_aligned(e, g, st)
+                if r_ is not None:
+                    return r_
             if src_.kind in ('seq', 'gen'):
                 out, ok_ = [], True
                 for x in src_.ent:
@@ -387,6 +411,8 @@ class Interp:
                 if ok_:
                     return Val('gen' if isinstance(e, ast.GeneratorExp) else 'seq', tuple(out))
             return OTHER
+        if isinstance(e, ast.Dict) and not e.keys:
+            return Val('map', None)
         if isinstance(e, (ast.Tuple, ast.List)):
             vals = [self.ev(x.value if isinstance(x, ast.Starred) else x, st) for x in e.elts]
             if any(isinstance(x, ast.Starred) for x in e.elts):
@@ -449,6 +475,89 @@ class Interp:
                 out += self.evs(e.body if tv else e.orelse, s2)
             return out
         return [(self.ev(e, st), st)]
+
+    ALIGNED = ('ids', 'files', 'sig', 'siglist')
+
+    def comp_aligned(self, e, g, st):
+        """A comprehension over one per-genome sequence (or a zip / zip_strict of sequences aligned with each other): the value of the
+        element expression is worked out for the generic position i.
+          element of a source                      -> that source (all positions) / its sub-sequence (filter that depends on the position)
+          next(it), it = iter(U) made for this use  -> U, provided every position takes exactly one and U is aligned with the source
+          m[key], m a mapping label -> signature    -> position i holds what the mapping gives for its LABEL: unless the mapping holds this very
+                                                      sequence, that is not the value computed from file i (recorded as a deviation)
+        None when the form is outside this vocabulary."""
+        it = g.iter
+        comps = None
+        if isinstance(it, ast.Call) and (u(it.func) == 'zip' or self.resolve(it).endswith('zip_strict')) and not it.keywords and isinstance(g.target, ast.Tuple) \
+                and len(g.target.elts) == len(it.args) and all(isinstance(t, ast.Name) for t in g.target.elts):
+            comps = [(t.id, self.ev(a, st)) for t, a in zip(g.target.elts, it.args)]
+        elif isinstance(g.target, ast.Name):
+            comps = [(g.target.id, self.ev(it, st))]
+        if not comps or any(v.kind not in self.ALIGNED or v.prov is None for _, v in comps) or len({v.prov for _, v in comps}) != 1:
+            return None
+        p = comps[0][1].prov
+        if ('empty', p) in st.env:
+            return Val('seq', (), p)                      # no genomes on this path: the result is empty whatever the element expression is
+        s1 = st.copy()
+        for name, v in comps:
+            s1.env[name] = Val('elem', v, p)              # the element at the generic position i of v
+        some = None
+        for c in g.ifs:
+            outs = self.cond(c, s1)
+            truths = {tv for tv, _ in outs}
+            if truths == {True}:
+                s1 = outs[0][1]
+            elif truths == {False}:
+                return Val('seq', (), p)
+            else:
+                some = u(c)[:50]                          # depends on the position
+        cases = self.elem_cases(e.elt, s1)
+        kinds = {c[0] for c in cases}
+        if kinds == {'elem'} and len({id(c[1]) for c in cases}) == 1:
+            v = cases[0][1]
+            return v if some is None else Val(v.kind, v.ent, ('subset', v.prov, some))
+        for c in cases:
+            if c[0] == 'next':
+                fresh = not c[1].prov['used']
+                c[1].prov['used'] = True                  # whatever happens, the iterator is no longer at its start
+                if not fresh:
+                    return None
+        if kinds == {'next'} and len({id(c[1]) for c in cases}) == 1 and some is None:
+            U = cases[0][1].ent
+            if U.prov == p and U.kind in self.ALIGNED:     # a fresh iterator, one element taken per position, as many elements as positions
+                return Val('siglist' if U.kind == 'sig' else U.kind, U.ent, p)
+            return None
+        look = [c for c in cases if c[0] == 'lookup']
+        if look and kinds <= {'lookup', 'next'}:
+            m_ = look[0][1]
+            V = m_.ent
+            if V is not None and V.kind in self.ALIGNED and V.prov is not None and V.prov != p and m_.prov[1] != 'files':
+                self.deviations.append((look[0][2], f'the value for the genome at position i of {p} is looked up by its LABEL in a mapping filled with the values of {V.prov} '
+                                        f'(keys: the labels of {m_.prov[2]}): a genome of this side with the same label as one of the other side gets the other one\'s value, its own file is not used', st))
+                return Val('siglist' if V.kind in ('sig', 'siglist') else V.kind, V.ent, ('mixed', p, V.prov))
+        return None
+
+    def elem_cases(self, x, st):
+        """[(what, value, node)] the element expression can be at the generic position: ('elem', source) | ('next', underlying sequence) |
+        ('lookup', mapping) | ('other', value); conditional expressions are followed on both sides unless the test is decided."""
+        if isinstance(x, ast.IfExp):
+            out = []
+            for tv, s2 in self.cond(x.test, st):
+                out += self.elem_cases(x.body if tv else x.orelse, s2)
+            return out
+        if isinstance(x, ast.Call) and u(x.func) == 'next' and len(x.args) == 1 and not x.keywords:
+            itv = self.ev(x.args[0], st)
+            if itv.kind == 'iter':
+                return [('next', itv, x)]
+        if isinstance(x, ast.Subscript):
+            mv = self.ev(x.value, st)
+            kv = self.ev(x.slice, st)
+            if mv.kind == 'map' and kv.kind == 'elem':
+                return [('lookup', mv, x)]
+        v = self.ev(x, st)
+        if v.kind == 'elem':
+            return [('elem', v.ent, x)]
+        return [('other', v, x)]
 
     def bind(self, target, val, st):
         """Bind an assignment / loop target to an abstract value (element-wise for a literal sequence of the same length)."""
@@ -535,10 +644,22 @@ class Interp:
                         return [(isinstance(op, ast.NotEq), a)] + self.cond(t, b)
                 if 'kspec' in (lv.kind, rv.kind) or 'kspec?' in (lv.kind, rv.kind):
                     raise Undecided(f'{self.fi.qualname}: comparison of k-mer parameters outside the vocabulary: {u(t)}')
+        if isinstance(t, ast.Compare) and len(t.ops) == 1 and isinstance(t.ops[0], (ast.In, ast.NotIn)):
+            cv = self.ev(t.comparators[0], st)
+            if cv.kind == 'map' and cv.ent is None:
+                self.ev(t.left, st)
+                return [(isinstance(t.ops[0], ast.NotIn), st)]           # nothing is in an empty mapping
         if isinstance(t, ast.Name):
             v = st.env.get(t.id, UNKNOWN)
             if v.kind in ('none', 'false'):
                 return [(False, st)]
+            if v.kind in ('ids', 'files', 'siglist') and v.prov is not None and not (isinstance(v.prov, tuple) and v.prov[0] in ('subset', 'mixed')):
+                if ('empty', v.prov) in st.env:
+                    return [(False, st)]
+                a = st.copy(f'{t.id} not empty')
+                b = st.copy(f'{t.id} empty')
+                b.env[('empty', v.prov)] = TRUE                          # every sequence aligned with it is empty too
+                return [(True, a), (False, b)]
             if v.kind in ('true', 'sig', 'kspec', 'db'):
                 return [(True, st)]
             if v.kind == 'unknown':
